@@ -9,9 +9,9 @@ PRB = "geneticengine/problems/__init__.py"
 CASES: list[dict] = []
 
 
-def M(pid, cid, file, find, replace, rule, expect="violation"):
+def M(pid, cid, file, find, replace, rule, expect="violation", extra=()):
     CASES.append(dict(property=pid, id=f"{pid}/{cid}", file=file, find=find, replace=replace, rule=rule, expect=expect,
-                      kind="mutant" if expect == "violation" else "twin"))
+                      extra=list(extra), kind="mutant" if expect == "violation" else "twin"))
 
 
 # ------------------------------------------------------------------------------------- C20
@@ -57,3 +57,33 @@ M("C12", "new-raw-evaluate-site", "geneticengine/algorithms/gp/operators/novelty
   "        evaluator.evaluate(problem, population)\n        for _ in range(target_size):\n            yield Individual(", "C12.R4")
 M("C12", "twin-is-better-mirrored", PRB, "return a.maximizing_aggregate > b.maximizing_aggregate", "return b.maximizing_aggregate < a.maximizing_aggregate", "", expect="silent")
 M("C12", "twin-ifexp-negated", PRB, "key = -v if minimize_value else v", "key = v if not minimize_value else -v", "", expect="silent")
+
+# ------------------------------------------------------------------------------------- C13
+SEQ = "geneticengine/evaluation/sequential.py"
+PAR = "geneticengine/evaluation/parallel.py"
+EAPI = "geneticengine/evaluation/api.py"
+M("C13", "seq-guard-dropped", SEQ, "if not individual.has_fitness(problem):", "if True:", "C13.R1")
+M("C13", "seq-count-twice", SEQ, "                self.register_evaluation()\n", "                self.register_evaluation()\n                self.register_evaluation()\n", "C13.R1")
+M("C13", "seq-count-cached-too", SEQ, "                self.register_evaluation()\n", "", "C13.R1",
+  extra=[(SEQ, "            yield individual", "            self.register_evaluation()\n            yield individual")])
+M("C13", "seq-store-not-counted", SEQ, "                self.register_evaluation()\n", "", "C13.R1")
+M("C13", "par-guard-dropped", PAR, "for ind in indivs if not ind.has_fitness(problem)}", "for ind in indivs}", "C13.R1")
+M("C13", "par-zip-misaligned", PAR, "for i, f in zip(pending, fitnesses):", "for i, f in zip(indivs, fitnesses):", "C13.R2")
+M("C13", "par-unordered-map", PAR, "fitnesses = pool.map(mapper, pending)", "fitnesses = pool.uimap(mapper, pending)", "C13.R2")
+M("C13", "eval-genotype-not-phenotype", EAPI, "phenotype = individual.get_phenotype()", "phenotype = individual.genotype", "C13.R3")
+M("C13", "default-aggregate-sign", PRB, "sum(m and -fit or +fit for (fit, m) in zip(components, self.minimize))",
+  "sum(m and +fit or -fit for (fit, m) in zip(components, self.minimize))", "C13.R3")
+M("C13", "default-aggregate-bool-sign", PRB, "sum(-fit if self.minimize else fit for fit in components)",
+  "sum(fit for fit in components)", "C13.R3")
+M("C13", "uncounted-evaluate-in-elitism", "geneticengine/algorithms/gp/operators/elitism.py",
+  "        candidates = list(population)\n", "        candidates = list(population)\n        for c in candidates:\n            c.set_fitness(problem, problem.evaluate(c.get_phenotype()))\n", "C13.R4")
+M("C13", "ff-invoked-twice", PRB, 'single = self.ff["default_aggregate"](multiple)',
+  'single = self.ff["default_aggregate"]([float(x) for x in self.ff["ff"](phenotype)])', "C13.R5")
+M("C13", "counter-foreign-write", "geneticengine/evaluation/tracker.py",
+  "        return self.evaluator.number_of_evaluations()", "        self.evaluator.count = len(self.recorders)\n        return self.evaluator.number_of_evaluations()", "C13.R4")
+M("C13", "twin-early-continue", SEQ,
+  "            if not individual.has_fitness(problem):\n                f = self.eval_single(problem, individual)\n                self.register_evaluation()\n                individual.set_fitness(problem, f)\n            yield individual",
+  "            if individual.has_fitness(problem):\n                yield individual\n                continue\n            f = self.eval_single(problem, individual)\n            self.register_evaluation()\n            individual.set_fitness(problem, f)\n            yield individual",
+  "", expect="silent")
+M("C13", "twin-ifexp-aggregate", PRB, "sum(m and -fit or +fit for (fit, m) in zip(components, self.minimize))",
+  "sum((-fit if m else fit) for (fit, m) in zip(components, self.minimize))", "", expect="silent")
